@@ -37,6 +37,8 @@ def empty(st, t): return VBool(z3.Length(buf(st, t)) == 0)
 def build(reg, src):
     from contracts import c19_commit
     reg.extra_checks.append(c19_commit.commit_check)
+    from contracts import c19_db
+    reg.extra_checks.append(c19_db.db_view_check)
     reg.assumptions += [
         "pandas (DataFrame construction, concat, sort_index, drop_duplicates, loc upsert, get, columns) and DuckDB are opaque: row order, "
         "uniqueness per key and SQL results rest on their semantics and are NOT decided",
